@@ -16,7 +16,6 @@ import Duckling.Lemmas.ParseNoBlank
   * `C09_raise_sites_inventory`   the explicit `raise` sites of non-compile exceptions re-extracted from the source are exactly the
                                    eleven reviewed ones (a new `raise TypeError(…)` changes the inventory and breaks this theorem);
   * `C09_trace_defined`           every located compile error of the model carries a trace (`stack_traceback` is total on it);
-  * `C09_blank_line_only_via_tree` the parser never hands a blank line to the interpreter's `split(maxsplit=1)[0]` (text input): see C03_blank_ignored.
   * `C09_scanner_never_crashes`   the scanner never raises a host exception and every number token it finishes has a text
                                    `[-]digits[.digits]` with at least one digit — exactly what `int()`/`float()` accept
                                    (invariant of the scanner state through every `addCharToToken`/`__resolve_token_return` step);
